@@ -9,6 +9,8 @@ Sub-checks
   forced-index  LMDB: the same filter executed through every single index that can serve
                 it (hand-built QueryPlans through kv.execute_one_plan); all must contain
                 the MUST set.
+  interleaved   the filters re-queried between the writes of a history (replacements that keep the
+                number of keys, deletions, unstorable tag values); oracle = raw dump at that point.
   small-scope   LMDB (and SQL in thorough): exhaustive enumeration of all stores of <=2
                 (thorough <=3) events over a 36-event alphabet x all 1023 filters over the
                 same alphabet.
@@ -145,6 +147,81 @@ class Complete(Sub):
             if any("since" in f or "until" in f for f in filters):
                 labels.append("window")
         return Result(viol, n_must > 0 and n_non > 0, labels)
+
+
+class Interleaved(Sub):
+    """queries between the writes of a history: completeness holds at every point, not only for a store built in one go"""
+
+    name = "interleaved"
+    examples = {"quick": 600, "thorough": 4800}
+    shards = {"quick": 12, "thorough": 16}
+    rule = ("a history of accepted events (regular, replaceable, parameterized, NIP-09 deletions, duplicates; some carry a "
+            "tag value the backend cannot index) with the filters re-queried at 1..4 generated points between the writes "
+            "and at the end; oracle = reference matcher over the raw dump taken at that point; non-trivial = a query point "
+            "lies between two writes, the MUST set is non-empty and a removal (replacement / deletion) happened before it")
+
+    def strategy(self, tier):
+        @st.composite
+        def build(draw):
+            c = draw(qgen.st_store_and_filters(max_filters=3, max_events=14, history=True, regular_only=False))
+            store = c["store"]
+            # a newer version of a replaceable event with the same number of tags (an update that keeps the key count)
+            for _ in range(draw(st.integers(0, 2))):
+                cand = [e for e in store if R.address(e) is not None]
+                if not cand:
+                    break
+                src = draw(st.sampled_from(cand))
+                tags = [[t[0], draw(st.sampled_from(qgen.QVALS))] if len(t) == 2 and t[0] != "d" and isinstance(t[1], str)
+                        else list(t) for t in src["tags"]]
+                new = E.free(draw(st.binary(min_size=32, max_size=32)).hex(), src["pubkey"], src["kind"],
+                             src["created_at"] + draw(st.sampled_from([1, 1, 2])), tags, "v2")
+                store.insert(draw(st.integers(store.index(src) + 1, len(store))), new)
+            if draw(st.integers(0, 2)) == 0:
+                tagged = [e for e in store if e["tags"] and e["kind"] != 5]
+                if tagged:
+                    # a value no backend can index rides along with indexable ones: refused as a whole or stored as a whole
+                    e = draw(st.sampled_from(tagged))
+                    e["tags"] = e["tags"] + [draw(st.sampled_from([["e", ["x", "y"]], ["p", {"a": 1}], ["t", [["n"]]]]))]
+            points = sorted(set(draw(st.lists(st.integers(1, len(store)), min_size=1, max_size=4))))
+            return {"backend": draw(st.sampled_from(["kv", "kv", "sql"])), "store": store, "filters": c["filters"],
+                    "points": points}
+        return build()
+
+    def run_case(self, case):
+        return H.run(self._run, case)
+
+    async def _run(self, case):
+        backend = case["backend"]
+        filters = [f for f in case["filters"] if R.wellformed_filter(f) and R.has_condition(f)]
+        viol = []
+        labels = ["backend:" + backend]
+        nt = False
+        if not filters:
+            return Result([], False, ["out-of-domain"])
+        async with H.Rig(backend, validators=[]) as rig:
+            removed = False
+            for i, ev in enumerate(case["store"]):
+                before = await rig.dump()
+                ok, why = await rig.add(ev)
+                if not ok:
+                    labels.append("refused")
+                stored = await rig.dump()
+                if any(j not in stored for j in before):
+                    removed = True
+                if (i + 1) in case["points"] or i + 1 == len(case["store"]):
+                    for f in filters:
+                        if sum(1 for e in stored.values() if R.may_match(e, f)) > R.effective_limit(f, MAX_LIMIT):
+                            labels.append("over-limit")
+                            continue
+                        got, eose, err = await rig.req([dict(f)])
+                        if err:
+                            viol.append(V("%s-req-refused" % backend, "a well-formed REQ is served", error=err, filters=[f]))
+                        n_must, n_non = check_answer(backend, stored, [f], got, viol, where="after write %d" % (i + 1))
+                        if n_must and removed and i + 1 < len(case["store"]):
+                            nt = True
+                    if viol:
+                        break
+        return Result(viol, nt, labels)
 
 
 def plan_classes(filters):
@@ -307,4 +384,4 @@ class SmallScope(Sub):
                       evals=len(filters), nt_hashes=nt)
 
 
-SUBCHECKS = [Complete(), ForcedIndex(), SmallScope()]
+SUBCHECKS = [Complete(), ForcedIndex(), Interleaved(), SmallScope()]
